@@ -56,6 +56,9 @@ struct Ctl {
 
 static Ctl G;   // never destroyed before exit: detached workers may still be leaving it
 static thread_local int t_id = -1;
+static bool g_fine = false;                 // engine poolf: every unlock of the pool mutex is a scheduling point too
+static thread_local int t_atomic_unlock = 0;   // inside condition_variable::wait: unlock + sleep is one atomic action
+static void unlocked();
 
 static void check_lock_free();
 static void after_wake();
@@ -113,6 +116,7 @@ public:
     void unlock() {
         pctl::G.held--;
         m.unlock();
+        pctl::unlocked();
     }
     native_handle_type native_handle() { return m.native_handle(); }
 
@@ -140,7 +144,9 @@ public:
     }
     template <typename L>
     void wait(L &lk) {
+        pctl::t_atomic_unlock++;
         lk.unlock();
+        pctl::t_atomic_unlock--;
         pctl::Thr *me = pctl::G.ths[pctl::t_id].get();
         pctl::G.sleepers++;
         me->cv_sleep = true;
@@ -308,6 +314,12 @@ static void check_destroyed() {
     std::_Exit(42);
 }
 void pctl::after_wake() { check_destroyed(); }
+
+// engine poolf (finer interleaving, no model prediction): the code that follows a critical section is a step of its own
+void pctl::unlocked() {
+    if (!pctl::g_fine || pctl::t_id < 0 || !pctl::G.active || pctl::t_atomic_unlock) return;
+    pctl::yield(pctl::AtPoint, 66, nullptr);
+}
 
 static void hook_point(const char *id) {
     if (pctl::t_id < 0 || !pctl::G.active) return;
@@ -700,6 +712,13 @@ static void run_case(const vh::Case &cs) {
                 delete p;
                 g_pool = nullptr;
                 g_destroyed = 1;
+                if (pctl::g_fine) {
+                    // submissions that are neither run nor cancelled at the moment the destructor has returned
+                    long unresolved = 0;
+                    for (auto &r : recs)
+                        if (r->submitted && r->ran + r->canc == 0) unresolved++;
+                    vh::print_obs({400, unresolved});
+                }
             }
         }));
     }
@@ -782,7 +801,8 @@ int main(int argc, char **argv) {
     for (auto &cs : vh::read_cases(argv[1])) {
         std::printf("CASE %s\n", cs.name.c_str());
         std::fflush(stdout);
-        if (cs.engine == "pool") run_case(cs);
+        pctl::g_fine = cs.engine == "poolf";
+        if (cs.engine == "pool" || cs.engine == "poolf") run_case(cs);
         std::printf("END\n");
         std::fflush(stdout);
     }
